@@ -204,6 +204,7 @@ static Outcome exec_op(const Rec &r, const Bytes &encinput) {
     int outkind = (int)A(r, 6);
     if (outkind == 1) o.out = read_file(out, ex);
     else if (outkind == 2) o.out = read_file(in + ".wenc", ex);
+    else if (outkind == 3) o.out = read_file(enc, ex);
     o.out.push_back(ex ? 1 : 0);
   }
   o.live_after = bufferctrl::haslive();
@@ -611,6 +612,70 @@ Verdict run_C02_cli(const Scn &s) {
   if (terminated) {
     Bytes iv0 = ref_hash(0, seedstr.data(), seedstr.size());
     g_stats.add(memcmp(iv0.data(), &E[48], 20) == 0 ? "probe.cli_first_iv_is_sha1_of_modelled_seed" : "probe.cli_first_iv_from_another_seed_source", 1);
+  }
+  return v;
+}
+
+// ---------------------------------------------------------------- C01 on the command-line path
+// `wencry -e` then `wencry -d` with the same key string, each command line in a pristine process and each spelt in one of
+// the legal ways (option order, = form, defaults left out, clustered short options), must both succeed and reproduce the file.
+static std::string spell(Rng &og, Rec &r, const std::string &modeflag, std::vector<std::vector<std::string>> groups) {
+  uint64_t fl = og.next();
+  if (fl & 1) groups.push_back({(fl & 2) ? modeflag + "n" : std::string("-n") + modeflag.substr(1)}); else { groups.push_back({modeflag}); groups.push_back({"-n"}); }
+  for (size_t i = groups.size(); i > 1; i--) std::swap(groups[i - 1], groups[og.below(i)]);
+  std::string cmdline = "wencry";
+  push_args(r, {"wencry"});
+  for (auto &gr : groups) for (auto &a : gr) { push_args(r, {a}); cmdline += " " + a; }
+  return cmdline;
+}
+Verdict run_C01_cli(const Scn &s) {
+  Verdict v;
+  long simtime = s.geti("t1");
+  char tmpl[512];
+  snprintf(tmpl, sizeof tmpl, "%s/c01-XXXXXX", g_outdir.empty() ? "/tmp" : g_outdir.c_str());
+  if (!mkdtemp(tmpl)) { snprintf(tmpl, sizeof tmpl, "/tmp/c01-XXXXXX"); if (!mkdtemp(tmpl)) { v.skipped = true; v.skip_reason = "no-scratch-dir"; return v; } }
+  std::string dir = tmpl;
+  Bytes key = s.getb("key");
+  std::string k64 = b64(key.data(), 16);
+  long len = s.geti("len"), pseed = s.geti("pseed"), cm = s.geti("cm"), hm = s.geti("hm");
+  Rng og(Rng::mix((uint64_t)s.geti("ss0", 1), 0xC01C, (uint64_t)simtime));
+  uint64_t fl = og.next();
+  bool defout = fl & 1;
+  std::vector<std::vector<std::string>> ge = {{"-i", "in0"}, {"-k", k64}};
+  if (!defout) ge.push_back({"-o", "enc0"});
+  if (!((fl & 2) && cm == 0)) { if (fl & 4) ge.push_back({"--cmode=" + std::to_string(cm)}); else ge.push_back({"--cmode", std::to_string(cm)}); }
+  if (!((fl & 8) && hm == 0)) { if (fl & 16) ge.push_back({"--hmode=" + std::to_string(hm)}); else ge.push_back({"--hmode", std::to_string(hm)}); }
+  Rec re;
+  re.kind = "argv"; re.data = key;
+  std::string ecmd = spell(og, re, "-e", ge);
+  // exec_op names: input in<oid>, -o files as given; with oid 0 the encrypted file is enc0 resp. in0.wenc
+  re.a = {simtime, len, pseed, cm, hm, 0, defout ? 2 : 3, simsched::ST_UNIFORM, 0, s.geti("ss0", 1), 0, 0};
+  int st;
+  std::vector<Outcome> oe = in_child(dir + "/e", [&]() { Outcome x = exec_op(re, Bytes()); send_outcome(x); }, st);
+  g_stats.add("history.fresh_forks", 1);
+  v.case_hash = fnv1a(fnv1a_u64(fnv1a_u64(fnv1a_u64(FNV_INIT, (uint64_t)simtime), (uint64_t)(len * 64 + cm * 8 + hm)), fl & 31), key.data(), 16);
+  auto V = [&](const std::string &c, const std::string &d) { Verdict x; x.violation = true; x.cls = c; x.detail = d; x.case_hash = v.case_hash; x.nontrivial = true; return x; };
+  if (!(oe.size() == 1 && oe[0].status == 1 && WIFEXITED(st) && WEXITSTATUS(st) == 0)) { rm_rf(dir); v.skipped = true; v.skip_reason = "cli-encrypt-did-not-terminate-normally"; return v; }
+  v.nontrivial = true;
+  g_stats.add("probe.cli_round_trips", 1);
+  if (!oe[0].ret || oe[0].out.empty() || oe[0].out.back() != 1) { rm_rf(dir); return V("enc-returned-false@cli", "`" + ecmd + "` did not succeed or wrote no file"); }
+  Bytes E(oe[0].out.begin(), oe[0].out.end() - 1);
+  Rec rd;
+  rd.kind = "argv"; rd.data = key;
+  std::string dcmd = spell(og, rd, "-d", {{"-i", "enc0"}, {"-o", "out0"}, {"-k", k64}});
+  rd.a = {simtime + 60, len, pseed, cm, hm, 1, 1, simsched::ST_UNIFORM, 0, s.geti("ss0", 1) + 1, 0, 0};
+  std::vector<Outcome> od = in_child(dir + "/d", [&]() { Outcome x = exec_op(rd, E); send_outcome(x); }, st);
+  rm_rf(dir);
+  g_stats.add("history.fresh_forks", 1);
+  if (!(od.size() == 1 && od[0].status == 1 && WIFEXITED(st) && WEXITSTATUS(st) == 0)) { v.skipped = true; v.nontrivial = false; v.skip_reason = "cli-decrypt-did-not-terminate-normally"; return v; }
+  v.trace_hash = fnv1a(fnv1a(FNV_INIT, E.data(), E.size()), od[0].out.data(), od[0].out.size());
+  if (!od[0].ret) { Verdict x = V("dec-returned-false@cli", "`" + dcmd + "` rejected the file just written by `" + ecmd + "`"); x.trace_hash = v.trace_hash; return x; }
+  Bytes P = make_plain(len, (uint64_t)pseed, 0, build_chunk_bytes());
+  Bytes D(od[0].out.begin(), od[0].out.end() - (od[0].out.empty() ? 0 : 1));
+  if (od[0].out.empty() || od[0].out.back() != 1 || D != P) {
+    Verdict x = V(D.size() != P.size() ? "length-differs@cli" : "bytes-differ@cli", "`" + ecmd + "` then `" + dcmd + "`: both succeeded, the restored file has " + std::to_string(D.size()) + " bytes, the original " + std::to_string(P.size()) + (D.size() == P.size() ? ", contents differ" : ""));
+    x.trace_hash = v.trace_hash;
+    return x;
   }
   return v;
 }
